@@ -488,6 +488,9 @@ pub fn check(rec: &RunRecord) -> Vec<Violation> {
     let crashed = rec.truth.first().map(|t| t.iter().any(|(_, e)| matches!(e, TruthEv::Ctl { ctl: Ctl::Crash }))).unwrap_or(false);
     let clean_end = matches!(sc.ending, Ending::Stop | Ending::Timeout) && !rec.store_fault_fired && !rec.step_limit_hit && !crashed;
     let crashed_end = crashed && matches!(sc.ending, Ending::Stop | Ending::Timeout) && !rec.store_fault_fired && !rec.step_limit_hit;
+    // The store answered an operation with an error (not a killed process): the agent fails, the runtime is alive and
+    // must close every open link all the same.
+    let store_failed_end = rec.store_fault_fired && matches!(sc.store_fault, super::scenario::StoreFaultCfg::ErrorAt(_)) && matches!(sc.ending, Ending::Stop | Ending::Timeout) && !rec.step_limit_hit && !crashed;
 
     // ---------------- C02: the map the lane actually holds (read back with get_map at the end of a control
     // command) equals the fold of the changes its lifecycle handlers were told about.
@@ -669,16 +672,18 @@ pub fn check(rec: &RunRecord) -> Vec<Violation> {
             }
         }
         // On a clean stop every link that is open must be closed with unlinked (peers keep reading).
-        if (clean_end || crashed_end) && rec.agent_ends.first().map(|e| e.is_some()).unwrap_or(false) && info.closed_read.is_none() && linked {
+        if (clean_end || crashed_end || store_failed_end) && rec.agent_ends.first().map(|e| e.is_some()).unwrap_or(false) && info.closed_read.is_none() && linked {
             let reader_ended_early = rec.hist.reader_end.iter().any(|(_, p, why)| p == peer && why.starts_with("io-error"));
             // A remote that the runtime itself gave up on earlier (it held no link for the prune delay, or a write to it
             // failed) is not told anything when the agent stops later.
             let dropped_by_runtime = rec.hist.disconnects.iter().any(|(_, p, why)| p == peer && (why.contains("RemoteTimedOut") || why.contains("ChannelClosed")));
             // When the agent task fails the runtime closes the links at once: a remote that is not reading at that
             // moment (its channel is full) cannot be told.
-            let frozen_then = crashed_end && rec.hist.freezes.iter().any(|(s, p)| p == peer && rec.agent_ends.first().and_then(|e| e.as_ref()).map(|e| *s <= e.step).unwrap_or(false));
+            let frozen_then = (crashed_end || store_failed_end) && rec.hist.freezes.iter().any(|(s, p)| p == peer && rec.agent_ends.first().and_then(|e| e.as_ref()).map(|e| *s <= e.step).unwrap_or(false));
             if !reader_ended_early && !dropped_by_runtime && !frozen_then {
-                if crashed_end {
+                if store_failed_end {
+                    out.push(Violation::new("C04", "C04.stop_without_unlinked", "store_failed", format!("peer {peer} lane {lane}: link still open after a store operation failed and the agent and its runtime stopped")));
+                } else if crashed_end {
                     out.push(Violation::new("C04", "C04.stop_without_unlinked", "agent_failed", format!("peer {peer} lane {lane}: link still open after the agent task failed and the runtime stopped")));
                 } else {
                     out.push(Violation::new("C04", "C04.stop_without_unlinked", "", format!("peer {peer} lane {lane}: link still open after the agent stopped cleanly")));
